@@ -216,7 +216,8 @@ def considerPELIfSeverityMatches(uh: UserHeader, config: Config) -> bool:
              False otherwise.
     """
     for sev in config.severities:
-        if hex(uh.eventSeverity).startswith(hex(sev)):
+        # The severity group is the high hex digit of the severity byte
+        if (uh.eventSeverity >> 4) == sev:
             return True
     return False
 
